@@ -14,14 +14,55 @@ BOUND = ("hand-built motif-avoidant networks (MAA core alone and composed with 1
          "random order; the D12 history is the first case.  Classification of a lost attractor: the cache state of all nodes is recorded before every attractor "
          "query the checker issues; kind lost_maa_under_skip_exclusion (finding D12) only if every node owning the attractor is a skip node for which the exclusion "
          "rule as written in the unchanged tree (non-ancestor node with cached candidates == [] or seeds == []), evaluated by the checker's own implementation on the "
-         "state recorded before that node was searched, removes a region containing the attractor; otherwise lost_attractor")
+         "state recorded before that node was searched, removes a region containing the attractor; otherwise lost_attractor; plus the hidden-node shape: MAA core / XNOR pair "
+         "next to a controller x two-step module or a latch-DAG network with 3-5 variables (<= 8 variables in total) whose reference diagram has children n, m of the root and a "
+         "child X of m strictly inside n that is not a child of n (brute-force filter); root, n and m expanded one by one in either order, then skip_remaining / skip_to_minimal "
+         "on every stub, seeds in ascending / descending / seeded order, minimum_simulation_budget in {1,10,50,default}")
 RULE = "non-trivial = at least one skip node was created and the network has >= 2 attractors or a motif-avoidant attractor"
 CASE_TIMEOUT = 60.0
 
 D12_HISTORY = [["bfs", None, 0, None], ["succ", 2]]
 
 
+# the instance that revealed the hidden-node shape, "P, Q; Q, P; R, R & U | T; U, R; T, R & (T | P)" + MAA core, is the first member of families.two_step_nets
+
+
+def hidden_node_cases(seed, tier):
+    """shape added after the seeded-change review: a motif-avoidant gadget next to a multi-path network in which a node X is a child of the root's child m and
+    lies inside another child n of the root without being a child of n (brute-force filter common.hidden_children on the network without the gadget); history:
+    root, then n and m expanded one by one (either order, sometimes one more node), then skip_remaining / skip_to_minimal on every stub - inside n, X is now
+    hidden behind a SKIP node: space inclusion without a path in the diagram - then seeds in ascending / descending / seeded order.  First the revealing
+    instance, then controller x two-step module x polarity x gadget (MAA core / XNOR pair), then latch-DAG networks with 3-5 variables."""
+    from common import hidden_children
+
+    gadgets = [("core", families.MAA_CORE), ("xnor", families.rename(families.XNOR2, {"P": "G", "Q": "H"}))]
+    k = 0
+    for name, small in families.two_step_nets(seed, tier):
+        triples = hidden_children(small)
+        if not triples:
+            continue
+        rng = random.Random(f"{seed}-{name}-c05-hidden")
+        for j, (gname, gadget) in enumerate(gadgets if k < 12 else [gadgets[k % 2]]):
+            bnet = families.norm(small + "\n" + gadget)
+            n, m, x = triples[0] if (k == 0 or len(triples) == 1) else rng.choice(triples)
+            first = k == 0 and j == 0
+            pre = [["bfs", None, 0, None], ["succ_space", n], ["succ_space", m]]
+            if not first and rng.random() < 0.4:
+                pre[1], pre[2] = pre[2], pre[1]
+            if not first and rng.random() < 0.25:
+                pre.append(["succ", rng.randint(1, 9)])
+            # (cost) every node in which the gadget is free holds the motif-avoidant attractor, which the random-walk elimination cannot remove: most cases give it a small budget
+            cfg = {} if first or rng.random() < 0.2 else {"minimum_simulation_budget": rng.choice([1, 10, 50])}
+            yield {"net": f"{name}+{gname}", "bnet": bnet, "config": cfg, "prefix": pre, "skip": ["skip_remaining"] if first or rng.random() < 0.7 else ["skip_all"],
+                   "order": "asc" if first or rng.random() < 0.6 else rng.choice(["desc", "perm"]), "perm_seed": rng.randrange(1000)}
+        k += 1
+
+
 def cases(seed, tier):
+    yield from families.interleave((hidden_node_cases(seed, tier), 1), (general_cases(seed, tier), 40))
+
+
+def general_cases(seed, tier):
     yield {"net": "D12", "bnet": families.HAND["D12"], "prefix": D12_HISTORY, "skip": ["skip_remaining"], "order": "asc"}
     ops = families.PLAIN_OPS + ["seeds", "cands", "skip"]
     # block-structured motif-avoidant networks (module conditioned by a source / a bistable controller, module regulating a bistable module): every way of skipping on a
@@ -162,7 +203,7 @@ def explain_loss(sd, net, obs, a):
 def check_with_info(case):
     net = oracle.Net.from_bnet(case["bnet"])
     info = net_info(net)
-    sd = make_sd(case["bnet"])
+    sd = make_sd(case["bnet"], case.get("config"))
     obs = Observer()
     for step in case["prefix"]:
         sd, _ = run_observed(sd, step, obs)
